@@ -1,15 +1,223 @@
-//! Extension `snapshot` of the Yata executor (see ext/mod.rs for the contract).
-use crate::yata::World;
-use serde_json::Value;
+//! Extension `snapshot` of the Yata executor (see ext/mod.rs for the contract) -- property C13.
+//!
+//! Steps
+//!   {"a":"snap","r":<replica>,"h":"<handle>"[,"via":"v1"|"v2"|"none"]}
+//!       takes `doc.transact().snapshot()`, passes it through its own encode/decode (v1 and v2; what came back is
+//!       recorded, TLC compares), keeps it under the handle (the value kept is the one that went through the
+//!       encoding named by `via`, so that later restores also exercise "a snapshot survives its own encode/decode").
+//!   {"a":"restore","r":<replica>,"h":"<handle>","enc":"v1"|"v2"}
+//!       calls `encode_state_from_snapshot` on the CURRENT document of the replica, decodes the payload with the
+//!       independent decoder, applies it to a FRESH document (new client id, same root types) and records the
+//!       observation of that document.
+//! Nothing here decides a verdict: events only carry what was observed.
+use crate::codec::Id;
+use crate::obs;
+use crate::yata::{mk_doc, panic_msg, World};
+use serde_json::{json, Value};
+use std::panic::{catch_unwind, AssertUnwindSafe};
+use yrs::updates::decoder::Decode;
+use yrs::updates::encoder::{Encode, Encoder, EncoderV1, EncoderV2};
+use yrs::{ReadTxn, Snapshot, Transact, Update};
 
-pub fn init(_w: &mut World) {}
+pub struct Handle {
+    pub name: String,
+    pub replica: u64,
+    pub snap: Snapshot,
+}
 
-pub fn step(_w: &mut World, _st: &Value) -> Option<Value> {
-    None
+#[derive(Default)]
+pub struct SnapState {
+    pub handles: Vec<Handle>,
+    pub fresh: u64,
+}
+
+fn state(w: &mut World) -> &mut SnapState {
+    w.ext.entry("snapshot".to_string()).or_insert_with(|| Box::new(SnapState::default())).downcast_mut::<SnapState>().unwrap()
+}
+
+pub fn init(w: &mut World) {
+    w.ext.insert("snapshot".to_string(), Box::new(SnapState::default()));
+}
+
+fn state_map(s: &Snapshot) -> Vec<Id> {
+    let mut v: Vec<Id> = s.state_map.iter().map(|(c, k)| (c.get(), *k)).collect();
+    v.sort();
+    v
+}
+
+fn delete_units(s: &Snapshot) -> Vec<Id> {
+    let mut v = Vec::new();
+    for (c, ranges) in s.delete_set.iter() {
+        for r in ranges.iter() {
+            for k in r.start..r.end {
+                v.push((c.get(), k));
+            }
+        }
+    }
+    v.sort();
+    v.dedup();
+    v
+}
+
+/// one encode/decode round trip; returns (json record, decoded value)
+fn round_trip(s: &Snapshot, v2: bool) -> (Value, Option<Snapshot>) {
+    let r = catch_unwind(AssertUnwindSafe(|| {
+        let bytes = if v2 { s.encode_v2() } else { s.encode_v1() };
+        if v2 {
+            Snapshot::decode_v2(&bytes)
+        } else {
+            Snapshot::decode_v1(&bytes)
+        }
+    }));
+    match r {
+        Ok(Ok(d)) => (json!({"ok": true, "why": "", "eq": &d == s, "sm": obs::idsv(&state_map(&d)), "ds": obs::idsv(&delete_units(&d))}), Some(d)),
+        Ok(Err(e)) => (json!({"ok": false, "why": format!("decode: {}", e), "eq": false, "sm": [], "ds": []}), None),
+        Err(p) => (json!({"ok": false, "why": format!("panic: {}", panic_msg(&p)), "eq": false, "sm": [], "ds": []}), None),
+    }
+}
+
+fn do_snap(w: &mut World, st: &Value) -> Value {
+    let r = st["r"].as_u64().unwrap();
+    let ri = w.rep(r);
+    let h = st["h"].as_str().unwrap_or("?").to_string();
+    let doc = w.reps[ri].doc.clone();
+    let taken = catch_unwind(AssertUnwindSafe(|| doc.transact().snapshot()));
+    let snap = match taken {
+        Ok(s) => s,
+        Err(p) => {
+            let none = json!({"ok": false, "why": "", "eq": false, "sm": [], "ds": []});
+            return json!({"k": "snap", "r": r, "h": h, "via": "none", "outcome": format!("panic: {}", panic_msg(&p)), "sm": [], "ds": [],
+                "rt": {"v1": none.clone(), "v2": none}, "obs": w.observe(ri)});
+        }
+    };
+    let (rt1, d1) = round_trip(&snap, false);
+    let (rt2, d2) = round_trip(&snap, true);
+    let via = match st["via"].as_str() {
+        Some(v) => v.to_string(),
+        None => ["none", "v1", "v2"][w.rng.below(3) as usize].to_string(),
+    };
+    let kept = match via.as_str() {
+        "v1" => d1.unwrap_or_else(|| snap.clone()),
+        "v2" => d2.unwrap_or_else(|| snap.clone()),
+        _ => snap.clone(),
+    };
+    let ev = json!({"k": "snap", "r": r, "h": h, "via": via, "outcome": "ok",
+        "sm": obs::idsv(&state_map(&snap)), "ds": obs::idsv(&delete_units(&snap)),
+        "rt": {"v1": rt1, "v2": rt2}, "obs": w.observe(ri)});
+    let s = state(w);
+    s.handles.retain(|x| x.name != h);
+    s.handles.push(Handle { name: h, replica: r, snap: kept });
+    ev
+}
+
+fn empty_obs() -> Value {
+    json!({"lst": {}, "dead": [], "gone": [], "coll": [], "holes": [], "top": [], "integrity": "ok", "pub": {}, "c17": "ok",
+        "missing": false, "pend": [], "pmiss": [], "pds": [], "sv": []})
+}
+
+fn do_restore(w: &mut World, st: &Value) -> Value {
+    let r = st["r"].as_u64().unwrap();
+    let ri = w.rep(r);
+    let h = st["h"].as_str().unwrap_or("?").to_string();
+    let v2 = w.pick_v2(st);
+    let enc = if v2 { "v2" } else { "v1" };
+    let no_upd = json!({"ins": [], "del": [], "skips": []});
+    let snap = match state(w).handles.iter().find(|x| x.name == h) {
+        Some(x) => x.snap.clone(),
+        None => {
+            return json!({"k": "restore", "r": r, "h": h, "enc": enc, "oc": "nohandle", "err": "unknown handle", "bytes": 0, "upd": no_upd, "wire": "",
+                "apply": "", "robs": empty_obs(), "obs": w.observe(ri)});
+        }
+    };
+    let doc = w.reps[ri].doc.clone();
+    let res = catch_unwind(AssertUnwindSafe(|| {
+        let txn = doc.transact();
+        if v2 {
+            let mut e = EncoderV2::new();
+            txn.encode_state_from_snapshot(&snap, &mut e).map(|_| e.to_vec())
+        } else {
+            let mut e = EncoderV1::new();
+            txn.encode_state_from_snapshot(&snap, &mut e).map(|_| e.to_vec())
+        }
+    }));
+    let (oc, err, bytes) = match res {
+        Ok(Ok(b)) => ("ok", String::new(), Some(b)),
+        Ok(Err(e)) => ("refused", format!("{}", e), None),
+        Err(p) => ("panic", panic_msg(&p), None),
+    };
+    let mut upd = no_upd;
+    let mut wire = String::new();
+    let mut apply = String::new();
+    let mut robs = empty_obs();
+    if let Some(bytes) = &bytes {
+        // the payload is decoded with the independent decoder, but it must not teach the harness anything: element
+        // identities (tags) and containers stay what the ORIGINAL updates said, so that a wrongly cut payload
+        // cannot make wrong content look right
+        let tags0 = w.tags.clone();
+        let known0 = w.known.clone();
+        let (u, problems) = w.payload(bytes, v2);
+        w.tags = tags0;
+        w.known = known0;
+        upd = u;
+        wire = problems.join("; ");
+        let n = {
+            let s = state(w);
+            s.fresh += 1;
+            s.fresh
+        };
+        let fresh = mk_doc(7000 + n, false, w.offset);
+        fresh.get_or_insert_text("t");
+        fresh.get_or_insert_array("a");
+        fresh.get_or_insert_map("m");
+        let fd = fresh.clone();
+        let ap = catch_unwind(AssertUnwindSafe(|| -> Result<(), String> {
+            let up = if v2 { Update::decode_v2(bytes) } else { Update::decode_v1(bytes) }.map_err(|e| format!("decode: {}", e))?;
+            let mut txn = fd.transact_mut();
+            txn.apply_update(up).map_err(|e| format!("apply: {}", e))
+        }));
+        apply = match ap {
+            Ok(Ok(())) => "ok".into(),
+            Ok(Err(e)) => format!("error: {}", e),
+            Err(p) => format!("panic: {}", panic_msg(&p)),
+        };
+        let fd = fresh.clone();
+        match catch_unwind(AssertUnwindSafe(|| w.observe_doc(&fd))) {
+            Ok(o) => robs = o,
+            Err(p) => {
+                robs = empty_obs();
+                robs["integrity"] = json!(format!("panic while reading the restored document: {}", panic_msg(&p)));
+            }
+        }
+    }
+    json!({"k": "restore", "r": r, "h": h, "enc": enc, "oc": oc, "err": err, "bytes": bytes.map(|b| b.len()).unwrap_or(0),
+        "upd": upd, "wire": wire, "apply": apply, "robs": robs, "obs": w.observe(ri)})
+}
+
+pub fn step(w: &mut World, st: &Value) -> Option<Value> {
+    match st["a"].as_str() {
+        Some("snap") => Some(do_snap(w, st)),
+        Some("restore") => Some(do_restore(w, st)),
+        _ => None,
+    }
 }
 
 pub fn after_step(_w: &mut World, _st: &Value, _ev: &mut Value) {}
 
-pub fn random_step(_w: &mut World, _authors: &[u64], _all: &[u64]) -> Option<Value> {
-    None
+/// seeded driver: take a snapshot of a random replica, or restore a random earlier handle on its replica
+pub fn random_step(w: &mut World, _authors: &[u64], all: &[u64]) -> Option<Value> {
+    let (n, pick) = {
+        let k = w.rng.next();
+        let s = state(w);
+        let n = s.handles.len();
+        let pick = if n > 0 { Some((s.handles[(k % n as u64) as usize].name.clone(), s.handles[(k % n as u64) as usize].replica)) } else { None };
+        (n, pick)
+    };
+    if n == 0 || (n < 8 && w.rng.chance(1, 2)) {
+        let r = all[w.rng.below(all.len() as u64) as usize];
+        let via = ["none", "v1", "v2"][w.rng.below(3) as usize];
+        Some(json!({"a": "snap", "r": r, "h": format!("s{}", n + 1), "via": via}))
+    } else {
+        let (h, r) = pick.unwrap();
+        Some(json!({"a": "restore", "r": r, "h": h, "enc": if w.rng.chance(1, 2) { "v1" } else { "v2" }}))
+    }
 }
